@@ -76,6 +76,8 @@ type imgEntry struct {
 	Dir  bool
 	Data []byte
 	Link string // symlink target (ext4, squashfs, iso+RR)
+	// Sparse: on a host tree, all-zero 4 KiB pages of Data are left as holes (mke2fs -d then stores holes too)
+	Sparse bool
 }
 
 // fsKinds are the image kinds the shared builder knows.
@@ -123,12 +125,51 @@ func writeHostTree(dir string, tree []imgEntry) error {
 			}
 		default:
 			_ = os.MkdirAll(filepath.Dir(hp), 0o755)
+			if e.Sparse {
+				f, err := os.Create(hp)
+				if err != nil {
+					return err
+				}
+				for off := 0; off < len(e.Data); off += 4096 {
+					end := off + 4096
+					if end > len(e.Data) {
+						end = len(e.Data)
+					}
+					zero := true
+					for _, b := range e.Data[off:end] {
+						if b != 0 {
+							zero = false
+							break
+						}
+					}
+					if !zero {
+						if _, err := f.WriteAt(e.Data[off:end], int64(off)); err != nil {
+							f.Close()
+							return err
+						}
+					}
+				}
+				if err := f.Truncate(int64(len(e.Data))); err != nil {
+					f.Close()
+					return err
+				}
+				f.Close()
+				continue
+			}
 			if err := os.WriteFile(hp, e.Data, 0o644); err != nil {
 				return err
 			}
 		}
 	}
 	return nil
+}
+
+// c10Cut is the end of the k-th of n pieces a file of the given length is written in (uneven on purpose)
+func c10Cut(length, k, n int) int {
+	if k >= n {
+		return length
+	}
+	return length*k/n + 13
 }
 
 // buildImage creates an image of the given kind holding tree, at byte offset start of a fresh SimDisk.
@@ -203,6 +244,10 @@ func buildImage(kind string, tree []imgEntry, start int64, opt map[string]int64)
 			return nil, err
 		}
 		var later []imgEntry
+		parts := 2 // opt "frag": in how many rounds the larger files are written (more rounds, more extents)
+		if opt["frag"] > 2 && opt["frag"] <= 16 {
+			parts = int(opt["frag"])
+		}
 		for _, e := range tree {
 			switch {
 			case e.Dir:
@@ -227,7 +272,7 @@ func buildImage(kind string, tree []imgEntry, start int64, opt map[string]int64)
 				// then not adjacent on the device, as in any volume that has been in use for a while
 				first := e.Data
 				if len(e.Data) > 6000 {
-					first = e.Data[:len(e.Data)/2+13]
+					first = e.Data[:c10Cut(len(e.Data), 1, parts)]
 					later = append(later, e)
 				}
 				if len(first) > 0 {
@@ -238,15 +283,17 @@ func buildImage(kind string, tree []imgEntry, start int64, opt map[string]int64)
 				f.Close()
 			}
 		}
-		for _, e := range later {
-			f, err := fs.OpenFile(e.Path, os.O_RDWR|os.O_APPEND)
-			if err != nil {
-				return nil, err
+		for round := 1; round < parts; round++ {
+			for _, e := range later {
+				f, err := fs.OpenFile(e.Path, os.O_RDWR|os.O_APPEND)
+				if err != nil {
+					return nil, err
+				}
+				if _, err := f.Write(e.Data[c10Cut(len(e.Data), round, parts):c10Cut(len(e.Data), round+1, parts)]); err != nil {
+					return nil, err
+				}
+				f.Close()
 			}
-			if _, err := f.Write(e.Data[len(e.Data)/2+13:]); err != nil {
-				return nil, err
-			}
-			f.Close()
 		}
 		bi.D, bi.Size = d, size
 		bi.Open = func(b backend.Storage) (filesystem.FileSystem, error) { return ext4.Read(b, size, start, 512) }
